@@ -302,6 +302,38 @@ func TestC01Random(t *testing.T) {
 				m.Globals[b.Name] = b.V
 			}
 		}
+		// twins: for every number written in the expression, an earlier statement
+		// may hold the same value written as the other kind of number (100000 and
+		// 100000.0) or as a string - constants that print alike are different constants
+		if gen.Uniform(rt, "twins", 3) == 0 {
+			n := 0
+			lang.Walk(expr, func(e lang.Expr) {
+				l, ok := e.(lang.Lit)
+				if !ok || n >= 3 {
+					return
+				}
+				var twin lang.Value
+				switch {
+				case l.V.K == lang.KInt && l.V.I > -(1<<52) && l.V.I < 1<<52:
+					twin = lang.Float(float64(l.V.I))
+				case l.V.K == lang.KFloat && l.V.F == math.Trunc(l.V.F) && math.Abs(l.V.F) < 1<<52:
+					twin = lang.Int(int64(l.V.F))
+				case l.V.K == lang.KString && len(l.V.S) > 0 && len(l.V.S) < 6:
+					twin = lang.Regexp(l.V.S)
+					if !gen.LiteralOK(twin) {
+						return
+					}
+				default:
+					return
+				}
+				prelude = fmt.Sprintf("tw%d = %s;\n", n, lang.ExprText(lang.ValueExpr(twin))) + prelude
+				n++
+			})
+			if n > 0 {
+				col.Class("with-print-alike-twin-constants")
+				c.Script = prelude + "return " + lang.ExprText(expr) + ";"
+			}
+		}
 		c.Exp = expectFromModel(m, &lang.Program{Stmts: []lang.Stmt{lang.Return{X: expr}}})
 		c.Hazard = lang.HasRange(expr)
 		c.HashOrder = lang.HasMultiHash(expr)
